@@ -209,6 +209,44 @@ def _check_mesh(run, mesh, rng, tier):
             run.fail(f"raises:{type(e).__name__}:subset_edge_distances", f"edge distances of Grid.isel(n_face=...) raise {type(e).__name__}: {e}",
                      "edge_face_distances[e] is the great-circle distance between the centres of the two faces sharing e", sinputs)
 
+    # ---------------------------------------------------------------- the same mesh given by Cartesian corners off the unit sphere
+    sizes = {int((np.asarray(row) != FILL).sum()) for row in mesh["faces"]}
+    if len(sizes) == 1 and mesh["n_face"] <= 40:
+        k = sizes.pop()
+        for radius in (0.5, 6371.229):
+            run.cases += 1
+            cinputs = dict(inputs, construction=f"Grid.from_face_vertices(xyz * {radius}, latlon=False); distances read before any normalisation")
+            try:
+                verts = np.array([[orc["U"][v] * radius for v in row[:k]] for row in mesh["faces"]])
+                gc = ux.Grid.from_face_vertices(verts, latlon=False)
+                P = np.stack([gc.node_x.values, gc.node_y.values, gc.node_z.values], axis=1).astype(float)
+                P = P / np.linalg.norm(P, axis=1, keepdims=True)
+                cmesh = {"name": mesh["name"] + ":xyz", "lon": np.rad2deg(np.arctan2(P[:, 1], P[:, 0])), "lat": np.rad2deg(np.arcsin(np.clip(P[:, 2], -1, 1))),
+                         "faces": np.array(gc.face_node_connectivity.values), "n_face": int(gc.n_face), "n_node": int(gc.n_node), "closed": False}
+                cen = np.array(gc.edge_node_connectivity.values)
+                corc = _oracle(cmesh, cen)
+                if corc is None:
+                    continue
+                ced = np.array(gc.edge_node_distances.values, float)
+                cef = np.array(gc.edge_face_distances.values, float)
+            except Exception as e:  # noqa: BLE001
+                run.fail(f"raises:{type(e).__name__}:cartesian_source_distances", f"edge distances of a Cartesian-only grid raise {type(e).__name__}: {e}",
+                         "edge_node_distances[e] is the great-circle distance between edge e's two nodes", cinputs)
+                continue
+            i = _first_bad(ced, corc["en"], atol=1e-7)
+            if i is not None:
+                run.fail("edge_node_distances:value:cartesian_source_off_unit_sphere",
+                         "edge_node_distances of a grid given by Cartesian corners off the unit sphere differs from the great-circle distance",
+                         "edge_node_distances[e] is the great-circle distance between edge e's two nodes", cinputs,
+                         observed={"edge": i[0], "value": float(ced[i])}, expected=float(corc["en"][i[0]]))
+            ci = np.array([len(fs) == 2 for fs in corc["faces_of"]])
+            i = _first_bad(cef, corc["ef"], mask=corc["usable"] & ci, atol=1e-7)
+            if i is not None:
+                run.fail("edge_face_distances:value:cartesian_source_off_unit_sphere",
+                         "edge_face_distances of a grid given by Cartesian corners off the unit sphere differs from the centre-to-centre distance",
+                         "edge_face_distances[e] is the great-circle distance between the centres of the two faces sharing e", cinputs,
+                         observed={"edge": i[0], "value": float(cef[i])}, expected=float(corc["ef"][i[0]]))
+
     # ---------------------------------------------------------------- difference (face / node centred)
     nrng = np.random.default_rng(rng.randrange(2 ** 31))
     exp_f0 = np.array([fs[0] for fs in orc["faces_of"]])
